@@ -12,7 +12,11 @@
 (*   Store    publish snapshot + {own type} (+ whatever else was built)    *)
 (*   Use      encode / decode with the codec                               *)
 (* With Locked = TRUE (proto.TypeOf) a miss takes the mutex and loads      *)
-(* again before building, so stores are serialised.                        *)
+(* again before building, so stores are serialised.  EarlyUnlock = TRUE    *)
+(* is the deviation in which the mutex only covers the second load: it     *)
+(* violates NoLossWhenLocked and IdentityStableWhenLocked, and its         *)
+(* schedules that the mutex forbids are replayed on the real goroutines as *)
+(* a probe of mutual exclusion (they must prove infeasible).               *)
 (*                                                                         *)
 (* Lost updates are ALLOWED in the unlocked caches: two goroutines that    *)
 (* miss on different types from the same snapshot each publish a map       *)
@@ -24,7 +28,8 @@
 (***************************************************************************)
 EXTENDS Naturals, FiniteSets, Sequences, TLC
 
-CONSTANTS Procs, Types, MaxCalls, Locked
+CONSTANTS Procs, Types, MaxCalls, Locked,
+          EarlyUnlock   \* deviation witness: the mutex is given back after the second check, before the build and the store
 
 VARIABLES maps,        \* map id -> set of entries <<type, builder>>; id 0 is the initial empty map
           published,   \* id of the published map
@@ -60,7 +65,8 @@ Lock(p) == /\ pc[p] = "lock" /\ lock = NoProc /\ lock' = p /\ pc' = [pc EXCEPT !
 Load2(p) == /\ pc[p] = "load2"
             /\ snap' = [snap EXCEPT ![p] = published]
             /\ pc' = [pc EXCEPT ![p] = IF want[p] \in TypesIn(published) THEN "unlock" ELSE "build"]
-            /\ UNCHANGED <<maps, published, want, calls, complete, used, lock>>
+            /\ lock' = IF EarlyUnlock /\ want[p] \notin TypesIn(published) THEN NoProc ELSE lock
+            /\ UNCHANGED <<maps, published, want, calls, complete, used>>
 
 Build(p) == /\ pc[p] = "build"
             /\ complete' = complete \cup {<<want[p], p>>}       \* private until Store
@@ -73,7 +79,7 @@ Store(p) == /\ pc[p] = "store"
                    new == maps[snap[p]] \cup {<<want[p], p>>} IN
                /\ maps' = maps @@ (id :> new)
                /\ published' = id
-            /\ pc' = [pc EXCEPT ![p] = IF Locked THEN "unlock" ELSE "use"]
+            /\ pc' = [pc EXCEPT ![p] = IF Locked /\ ~EarlyUnlock THEN "unlock" ELSE "use"]
             /\ UNCHANGED <<snap, want, calls, complete, used, lock>>
 
 Unlock(p) == /\ pc[p] = "unlock" /\ lock = p /\ lock' = NoProc
